@@ -513,12 +513,12 @@ macro_rules! integer_compare {
         while !$num.data.is_empty() {
             // All digits **must** be valid.
             let actual = match $iter.next() {
-                Some(&v) => v,
+                // Compare the digit, not the character: `a` and `A` are the same digit.
+                Some(&v) => char_to_valid_digit_const(v, $radix),
                 // Could have hit the decimal point.
                 _ => break,
             };
-            let rem = $num.data.quorem(&$den.data) as u32;
-            let expected = digit_to_char_const(rem, $radix);
+            let expected = $num.data.quorem(&$den.data) as u32;
             $num.data.mul_small($radix as Limb).unwrap();
             if actual < expected {
                 return cmp::Ordering::Less;
@@ -552,12 +552,12 @@ macro_rules! fraction_compare {
         while !$num.data.is_empty() {
             // All digits **must** be valid.
             let actual = match $iter.next() {
-                Some(&v) => v,
+                // Compare the digit, not the character: `a` and `A` are the same digit.
+                Some(&v) => char_to_valid_digit_const(v, $radix),
                 // No more actual digits, or hit the exponent.
                 _ => return cmp::Ordering::Less,
             };
-            let rem = $num.data.quorem(&$den.data) as u32;
-            let expected = digit_to_char_const(rem, $radix);
+            let expected = $num.data.quorem(&$den.data) as u32;
             $num.data.mul_small($radix as Limb).unwrap();
             if actual < expected {
                 return cmp::Ordering::Less;
